@@ -64,6 +64,8 @@ def run_pipeline(ctx: Ctx, res: Result, specs, *, nontrivial=None, trace_module=
             if val is True:
                 strata[k] += 1
         labels[spec.get("label", "")] += 1
+        for dname in v.get("diag", []) or []:
+            clauses["DIAG:" + dname] += 1
         rows += v.get("nrows", 0)
         skipped_rows += v.get("nskip", 0)
         if status == "ok":
